@@ -1,9 +1,10 @@
 (* C02 -- pixel indices and scaled (y,x) coordinates are consistent inverse maps; shape-based mask constructors.
    Statements only.  Every function named here without a `_spec` / `_inside` suffix is a definition GENERATED from /repo
-   (Gen/Gen_geometry.v) except mask_2d_elliptical(_annular)_from_cs (hand model, Model/C02x.v).  All statements are at
+   (Gen/Gen_geometry.v) except mask_2d_elliptical(_annular)_from_cs (executable (cos, sin) form, Model/C02x.v, proved equal
+   to the generated trigonometric code).  All statements are at
    ROps (Coq's real numbers): for all shapes, all real pixel scales > 0 (<> 0 where that suffices), all real origins. *)
 From Coq Require Import ZArith Reals Lra List Bool QArith.
-From PAV Require Import Base.NumOps Gen.Gen_geometry Model.C02 Model.C02x Proofs.C02.
+From PAV Require Import Base.NumOps Gen.Gen_geometry Model.C02 Model.C02x Proofs.C02 Proofs.C02r.
 Import ListNotations.
 Local Open Scope R_scope.
 
@@ -117,18 +118,33 @@ Theorem C02_sqrt_le_meaning : forall a r, 0 <= a -> (@sqrt_le ROps a r = true <-
 Proof. exact sqrt_le_iff. Qed.
 Theorem C02_sqrt_ge_meaning : forall a r, 0 <= a -> (@sqrt_ge ROps a r = true <-> r <= sqrt a).
 Proof. exact sqrt_ge_iff. Qed.
-(* elliptical constructors: PARTIAL -- about the hand model in which arctan2 / radians / sin / cos are replaced by the
-   angle-addition identities on (c, s) = (cos angle, sin angle); what is missing is the step from the code's trigonometric
-   calls to that algebraic form (checked numerically by the correspondence run only) *)
-Theorem C02_elliptical_exact_partial : forall H W sy sx R q c s cy cx, sy <> 0 -> sx <> 0 -> q <> 0 ->
-  @mask_2d_elliptical_from_cs ROps (H, W) (sy, sx) R q (c, s) (cy, cx) =
-  mask_of (H, W) (@ell_inside ROps (H, W) (sy, sx) R q (c, s) (cy, cx)).
-Proof. exact elliptical_is_spec. Qed.
-Theorem C02_elliptical_annular_exact_partial : forall H W sy sx Ri qi ci si Ro qo co so cy cx,
-  sy <> 0 -> sx <> 0 -> qi <> 0 -> qo <> 0 ->
-  @mask_2d_elliptical_annular_from_cs ROps (H, W) (sy, sx) Ri qi (ci, si) Ro qo (co, so) (cy, cx) =
-  mask_of (H, W) (@ellann_inside ROps (H, W) (sy, sx) Ri qi (ci, si) Ro qo (co, so) (cy, cx)).
-Proof. exact elliptical_annular_is_spec. Qed.
+(* elliptical constructors.  mask_2d_elliptical_from / mask_2d_elliptical_annular_from / elliptical_radius_from are
+   GENERATED over R only (they call np.arctan2, np.radians, np.sin, np.cos -- translated to atan2R, radiansR, sin, cos,
+   NumPy's oracle contract spelled out in the header of Gen_geometry.v).  The unmasked pixels are exactly those whose
+   offset (dy, dx), rotated clockwise by the angle (degrees, counter-clockwise from the positive x-axis), satisfies
+   sqrt(x'^2 + (y'/q)^2) <= R  (annular: inner ellipse >= R_in and outer ellipse <= R_out). *)
+Theorem C02_elliptical_exact : forall H W sy sx R q angle cy cx, sy <> 0 -> sx <> 0 -> q <> 0 ->
+  mask_2d_elliptical_from (H, W) (sy, sx) R q angle (cy, cx) =
+  mask_of (H, W) (@ell_inside ROps (H, W) (sy, sx) R q (cos (angle * PI / 180), sin (angle * PI / 180)) (cy, cx)).
+Proof. exact elliptical_R_is_spec. Qed.
+Theorem C02_elliptical_annular_exact : forall H W sy sx Ri qi ai Ro qo ao cy cx, sy <> 0 -> sx <> 0 -> qi <> 0 -> qo <> 0 ->
+  mask_2d_elliptical_annular_from (H, W) (sy, sx) Ri qi ai Ro qo ao (cy, cx) =
+  mask_of (H, W) (@ellann_inside ROps (H, W) (sy, sx) Ri qi (cos (ai * PI / 180), sin (ai * PI / 180)) Ro qo
+                                 (cos (ao * PI / 180), sin (ao * PI / 180)) (cy, cx)).
+Proof. exact elliptical_annular_R_is_spec. Qed.
+(* the executable form run against the implementation (Model/C02x.v: the angle enters as its (cos, sin) pair) is the
+   generated code, for every angle: the angle-addition step is proved, not assumed *)
+Theorem C02_elliptical_executable_model : forall sh s R q angle c,
+  mask_2d_elliptical_from sh s R q angle c =
+  @mask_2d_elliptical_from_cs ROps sh s R q (cos (angle * PI / 180), sin (angle * PI / 180)) c.
+Proof. exact elliptical_R_is_cs. Qed.
+Theorem C02_elliptical_annular_executable_model : forall sh s Ri qi ai Ro qo ao c,
+  mask_2d_elliptical_annular_from sh s Ri qi ai Ro qo ao c =
+  @mask_2d_elliptical_annular_from_cs ROps sh s Ri qi (cos (ai * PI / 180), sin (ai * PI / 180)) Ro qo
+                                       (cos (ao * PI / 180), sin (ao * PI / 180)) c.
+Proof. exact elliptical_annular_R_is_cs. Qed.
+Theorem C02_polar_form : forall y x, let r := sqrt (x * x + y * y) in r * cos (atan2R y x) = x /\ r * sin (atan2R y x) = y.
+Proof. exact polar. Qed.
 
 (* ------------------------------------------------------------------ non-vacuity: the hypothesis sets are met by non-trivial
    inputs (non-square shape, anisotropic scales, unequal non-zero origin), and the models run (QOps) *)
@@ -192,5 +208,8 @@ Print Assumptions C02_annular_exact.
 Print Assumptions C02_anti_annular_exact.
 Print Assumptions C02_sqrt_le_meaning.
 Print Assumptions C02_sqrt_ge_meaning.
-Print Assumptions C02_elliptical_exact_partial.
-Print Assumptions C02_elliptical_annular_exact_partial.
+Print Assumptions C02_elliptical_exact.
+Print Assumptions C02_elliptical_annular_exact.
+Print Assumptions C02_elliptical_executable_model.
+Print Assumptions C02_elliptical_annular_executable_model.
+Print Assumptions C02_polar_form.
